@@ -82,3 +82,9 @@ Definition NoEmbedded (g : gen_in) : Prop :=
    source, then one per installed apk in order *)
 Definition own_elements (g : gen_in) : list pkg :=
   d_pkgs (base_doc g) ++ List.map (apk_package (nonce_of g)) (g_apks g).
+
+(* every embedded document that Generate uses describes at most one element
+   carrying its apk's name (what melange-built apks ship) *)
+Definition SingleTarget (g : gen_in) : Prop :=
+  forall a, In a (g_apks g) -> forall e, locate (g_fs g) (candidates (a_name a) (a_version a)) = Some (FDoc e) ->
+    (List.length (targets (a_name a) e) <= 1)%nat.
